@@ -27,20 +27,20 @@ func (c *ChoquetIntegralBiasListener) Spec_OnCriterionAdded(
 ) model.AddedCriterionParams {
 	parsedParams := params.(choquetParams)
 	oldWeights := parsedParams.weights
-	newCriteria := parsedParams.criteria.Add(criterion)
-	newWeightsKeys := PowerSet(*newCriteria.Names())
+	newCriteria := parsedParams.criteria.Spec_Add(criterion)
+	newWeightsKeys := Spec_PowerSet(*newCriteria.Spec_Names())
 	newWeights := make(model.Weights, len(*newWeightsKeys))
 	for _, k := range *newWeightsKeys {
-		cKey := criterionKey(&k)
+		cKey := Spec_criterionKey(&k)
 		if _, ok := (*oldWeights)[cKey]; ok {
 			continue
 		}
-		originalKeyCriteriaWithoutNewOne := utils.RemoveSingleStringOccurrence(k, criterion.Id)
+		originalKeyCriteriaWithoutNewOne := utils.Spec_RemoveSingleStringOccurrence(k, criterion.Id)
 		if len(originalKeyCriteriaWithoutNewOne) == 0 {
 			newWeights[criterion.Id] = generator()
 			continue
 		}
-		newWeights[cKey] = getWeightForCriteriaUnion(&originalKeyCriteriaWithoutNewOne, oldWeights)
+		newWeights[cKey] = Spec_getWeightForCriteriaUnion(&originalKeyCriteriaWithoutNewOne, oldWeights)
 	}
 	return choquetParams{weights: &newWeights, criteria: &model.Criteria{*criterion}}
 }
@@ -50,18 +50,18 @@ func (c *ChoquetIntegralBiasListener) Spec_OnCriteriaRemoved(
 	params model.MethodParameters,
 ) model.MethodParameters {
 	cParams := params.(choquetParams)
-	expectedSet := *PowerSet(*leftCriteria.Names())
+	expectedSet := *Spec_PowerSet(*leftCriteria.Spec_Names())
 	filteredWeights := make(model.Weights, len(expectedSet))
 	for _, criteria := range expectedSet {
-		key := criterionKey(&criteria)
-		filteredWeights[key] = cParams.weights.Fetch(key)
+		key := Spec_criterionKey(&criteria)
+		filteredWeights[key] = cParams.weights.Spec_Fetch(key)
 	}
 	return choquetParams{weights: &filteredWeights, criteria: leftCriteria}
 }
 
 func (c *ChoquetIntegralBiasListener) Spec_RankCriteriaAscending(params *model.DecisionMakingParams) *model.WeightedCriteria {
-	criteriaWeights := decomposeWeights(params)
-	return params.Criteria.SortByWeights(*criteriaWeights)
+	criteriaWeights := Spec_decomposeWeights(params)
+	return params.Criteria.Spec_SortByWeights(*criteriaWeights)
 }
 
 func Spec_decomposeWeights(params *model.DecisionMakingParams) *model.Weights {
@@ -71,8 +71,8 @@ func Spec_decomposeWeights(params *model.DecisionMakingParams) *model.Weights {
 		weights[c.Id] = 0
 	}
 	for _, a := range params.ConsideredAlternatives {
-		sortedCriteria := prepareCriteriaInAscendingOrder(&a)
-		_, w := computeTotalWeight(sortedCriteria, &combinedWeights)
+		sortedCriteria := Spec_prepareCriteriaInAscendingOrder(&a)
+		_, w := Spec_computeTotalWeight(sortedCriteria, &combinedWeights)
 		for _, criteriaValues := range w {
 			for _, c := range criteriaValues.criteria {
 				w, ok := weights[c]
@@ -90,7 +90,7 @@ func Spec_decomposeWeights(params *model.DecisionMakingParams) *model.Weights {
 func (c *ChoquetIntegralBiasListener) Spec_Merge(params model.MethodParameters, addition model.MethodParameters) model.MethodParameters {
 	oldParams := params.(choquetParams)
 	newParams := addition.(choquetParams)
-	resultWeights := oldParams.weights.Merge(newParams.weights)
+	resultWeights := oldParams.weights.Spec_Merge(newParams.weights)
 	resultCriteria := append(*oldParams.criteria, *newParams.criteria...)
 	return choquetParams{weights: resultWeights, criteria: &resultCriteria}
 }
